@@ -1,5 +1,3 @@
 package main
 
 func c29() {}
-func c30() {}
-func c34() {}
